@@ -68,13 +68,23 @@ def run2 (c p s : Str) : Option (String × String × String) :=
     let back := match vs with | some m => some (replaceTags p m) | none => none
     let mb := match back with | some b => encBool («matches» b s) ++ "," ++ encBool (b == s) | none => "-,-"
     let out := encBool mt ++ "," ++ encBool vs.isSome ++ "," ++ mb
-    let sp := match parse p, parse s with
-      | some pt, some st =>
-        if isName st && distinctTags pt then
-          let t := tokMatches pt st
-          if t then "T,T,T," ++ encBool (!hasAnon pt) else "F,F,-,-"
+    -- names: any valid resource name — its tokens are opaque strings, also when they start with `$`
+    -- (a name token `$y` is a literal of the name, not a tag)
+    let rawMatch : List Tok → List Str → Bool := fun pt toks =>
+      let rec go : List Tok → List Str → Bool
+        | [], [] => true
+        | [.full], _ :: _ => true
+        | .lit l :: pr, t :: tr => l = t && go pr tr
+        | .tag _ :: pr, _ :: tr => go pr tr
+        | .star :: pr, _ :: tr => go pr tr
+        | _, _ => false
+      go pt toks
+    let sp := match parse p with
+      | some pt =>
+        if isValidRID s && !s.contains Ch.qmark && distinctTags pt && !pt.isEmpty then
+          if rawMatch pt (splitDots s) then "T,T,T," ++ encBool (!hasAnon pt) else "F,F,-,-"
         else "-"
-      | _, _ => "-"
+      | none => "-"
     some (out, sp, "law-" ++ (if mt then "m" else "n") ++ wfTag p s)
   else none
 
